@@ -220,6 +220,10 @@ fn gen_case(g: &mut Gen) {
             for &t in &which {
                 g.op(format!("clear t={}", t));
                 g.count("c15.clear");
+                if g.rng.chance(1, 4) {
+                    g.count("c15.clear.twice");
+                    g.op(format!("clear t={}", t));
+                }
                 let mut on_tape: Vec<usize> = (0..st.len()).filter(|&k| st.tape[k] == Some(t)).collect();
                 for &k in &on_tape {
                     st.stale[k] = true;
@@ -236,6 +240,10 @@ fn gen_case(g: &mut Gen) {
                 for &k in on_tape.iter().take(keep.min(6)) {
                     let via = pick_form(g, "c15", "reset", &["reset", "do_reset"]);
                     g.op(format!("reset r{} via={}", k, via));
+                    if g.rng.chance(1, 6) {
+                        g.count("c15.reset.twice");
+                        g.op(format!("reset r{} via={}", k, via));
+                    }
                     st.stale[k] = false;
                     st.is_var[k] = true;
                     st.dep[k] = true;
@@ -324,9 +332,37 @@ fn gen_large15(g: &mut Gen) {
     g.op(format!("derivs r{} via=vec", order[nvars - 1]));
 }
 
+/// clear / reset in degenerate situations: on an empty tape, twice in a row, immediately after
+/// creation, on a never used tape; records of value zero (all derivatives exactly zero) across
+/// cycles
+fn gen_degenerate_cycles(g: &mut Gen) {
+    for (zero, one) in [("0", "1"), ("0", "0"), ("1", "1")] {
+        g.count("c15.degenerate.cycles");
+        for line in [
+            "@ tapes 2 via=default".to_string(), "clear t=0".into(), "clear t=0".into(),
+            format!("var r0 {} t=0 via=record", zero), "reset r0 via=reset".into(),
+            "reset r0 via=do_reset".into(), "derivs r0 via=vec".into(),
+            format!("var r1 {} t=0 via=list", zero), "mul r2 r0 r1 via=ref_ref".into(),
+            "derivs r2 via=vec".into(), "sub r3 r2 r2 via=val_val".into(), "derivs r3 via=try".into(),
+            "clear t=0".into(), "clear t=0".into(), "reset r1 via=reset".into(), "reset r1 via=reset".into(),
+            "reset r0 via=do_reset".into(), "mul r4 r0 r1 via=val_ref".into(), "derivs r4 via=vec".into(),
+            "div r5 r4 r4 via=ref_val".into(), "derivs r5 via=vec".into(),
+            "clear t=1".into(), format!("var r6 {} t=1 via=record", one), "clear t=1".into(),
+            "reset r6 via=reset".into(), "reset r6 via=do_reset".into(), "neg r7 r6 via=ref".into(),
+            "derivs r7 via=vec".into(), "derivs r6 via=vec".into(),
+            "clear t=0".into(), "derivs r4 via=vec".into(), "reset r4 via=reset".into(),
+            "derivs r4 via=vec".into(), "clear t=0".into(), "clear t=1".into(),
+        ] {
+            g.op(line);
+        }
+    }
+}
+
 pub fn gen(g: &mut Gen) {
+    gen_degenerate_cycles(g);
     gen_systematic(g);
     gen_large15(g);
+    gen_degenerate(g, "c15", "@ tapes 1", "", Kind::Fp);
     let n = if g.thorough { 20000 } else { 800 };
     for _ in 0..n {
         gen_case(g);
